@@ -112,7 +112,7 @@ def base_flags(ctx, obl):
     return fl
 
 
-CBMC_BASE = ["--no-malloc-may-fail", "--no-signed-overflow-check"]
+CBMC_BASE = ["--no-malloc-may-fail", "--no-signed-overflow-check", "--max-field-sensitivity-array-size", "1024"]
 
 
 def run_obligation(ctx, obl, want_trace=False, trace_props=()):
@@ -254,7 +254,7 @@ def _c_value(v):
         ty = v.get("type", "")
         if n == "float":
             raise ValueError("float member in IN struct; use bit-pattern members")
-        if "unsigned" in ty or ty in ("_Bool", "bool"):
+        if "unsigned" in ty or ty.startswith("uint") or ty in ("_Bool", "bool", "size_t", "__CPROVER_size_t"):
             return "%dU%s" % (u, "LL" if w > 32 else "")
         if u >= 1 << (w - 1):
             u -= 1 << w
@@ -331,7 +331,7 @@ def build_replay(ctx, obl, res):
 
 def native_flags(ctx, defines, includes=()):
     fl = ["-DNDEBUG", "-DRTOSC_VERIF", "-DVERIF_REPLAY", "-g", "-O0", "-fsanitize=address,undefined",
-          "-fno-sanitize-recover=undefined", "-w",
+          "-fno-sanitize=shift", "-fno-sanitize-recover=undefined", "-w",
           "-I", os.path.join(ctx.repo, "include"), "-I", os.path.join(VERIF, "contracts"),
           "-I", os.path.join(VERIF, "spec"), "-I", os.path.join(VERIF, "harness"),
           "-I", ctx.inj, "-I", ctx.ext, "-I", os.path.join(ctx.repo, "src")]
@@ -443,7 +443,7 @@ def run_check(prop, tier, seed, obligations, ctx, level, functions, assumptions,
         k = match_known(kf, o, doc) if (r.reproduced or not o.replayable) else None
         if k:
             r.known = k
-            known_lines.append("KNOWN-FINDING: property=%s %s" % (o.prop, k["text"].split(" ", 1)[1]))
+            known_lines.append("KNOWN-FINDING: %s" % k["text"].split(" ", 1)[1])
             continue
         suffix = "" if r.reproduced else " no-failing-input-found"
         violations.append("VIOLATION property=%s replay=%s obligation=%s failed=%s%s" % (
